@@ -377,7 +377,8 @@ def runLine (line : String) : String :=
   | op :: m :: rest =>
     -- `chs` = handshake on a re-used client context: judged by the name of ITS connect call,
     -- exactly like `hs` (the model has no state to carry over)
-    if (op == "cert" || op == "hs" || op == "chs") && rest.length ≥ 1 && rest.length < 62 then
+    -- `hsn` = the same handshake reached through tls_connect_servername
+    if (op == "cert" || op == "hs" || op == "chs" || op == "hsn") && rest.length ≥ 1 && rest.length < 62 then
       match modeOf m, parseName (rest.getLast!), parseEntries rest.dropLast ⟨[], []⟩ with
       | some strict, some name, some cert =>
         let r := checkName (ipLit strict) cert name
